@@ -126,7 +126,7 @@ func c58(c *Ctx) {
 	c.NeverAfter(acc, c.Edge("!acquire($r)"), Union(RetOK(), rel), true)
 	c.Guard(acc, rel, "acquire($r)")
 	spurious := c.UnderFact(c.Edge(".Accept($r.Listener)#1 == nil"), "acquire($r)", false)
-	c.Between_misc2(acc, spurious, Calls(".Accept"), Calls(".Close").RecvIs(".Accept($r.Listener)#0"), true)
+	c.BetweenVia(acc, spurious, Calls(".Accept"), Calls(".Close").RecvIs(".Accept($r.Listener)#0"), true)
 	c.Has(acc, Calls(L+"release").ArgIs(0, "$r"))
 	c.Has(acc, Calls(L+"acquire").ArgIs(0, "$r"))
 	c.Has(acc, RetOK().Where("of a *limitListenerConn", func(in ssa.Instruction) bool {
